@@ -158,6 +158,28 @@ def admissible(spec):
     return True, steps
 
 
+def divergent_derivative(spec, ga, gb, rtol, atol):
+    """['divergent-derivative'] iff every disagreeing position is non-finite (or of magnitude >= 1e300) on at least one side
+    AND the derivative series really diverges by the reference (rho(J*) >= 1 at the least fixed point, Z itself being finite
+    only because some weight is 0): the open finding C12-divergent-derivative-gradient.  Anything else stays unlabelled."""
+    import numpy as np
+    from .solver import jacobian_bound
+    a, b = ga.to(torch.float64), gb.to(torch.float64)
+    if a.shape != b.shape:
+        return []
+    ok = torch.isclose(a, b, rtol=rtol, atol=atol, equal_nan=True)
+    bad = ~ok
+    wild = (~torch.isfinite(a)) | (~torch.isfinite(b)) | (a.abs() >= 1e300) | (b.abs() >= 1e300)
+    if not bool((wild | ~bad).all()):
+        return []
+    ref = GR.GrammarRef(spec, 'real')
+    x, steps, conv = ref.lfp(400, rtol=1e-12)
+    if not conv:
+        return []
+    bnd, rho = jacobian_bound(ref, x, None, {n: np.ones(ref.shape[n]) for n in spec['nts']})
+    return ['divergent-derivative'] if rho >= 1.0 else []
+
+
 def close(a, b, rtol, atol):
     if a.shape != b.shape:
         return False
@@ -302,7 +324,8 @@ def execute(case):
                     for n in spec['terms']:
                         ga, gb = base['grads'][n], r['grads'][n]
                         if not close(ga, gb, max(rtol, 1e-6) * 10, max(atol, 1e-9) * 10):
-                            V('gradient-differs', feats, f'd/d{n} under presentation 0: {ga.tolist()}, under presentation {i}: {gb.tolist()}')
+                            V('gradient-differs', divergent_derivative(spec, ga, gb, max(rtol, 1e-6) * 10, max(atol, 1e-9) * 10) + feats,
+                              f'd/d{n} under presentation 0: {ga.tolist()}, under presentation {i}: {gb.tolist()}')
             counters['config.compared'] = counters.get('config.compared', 0) + 1
             if cfg.get('grad'):
                 counters['config.grad-compared'] = counters.get('config.grad-compared', 0) + 1
